@@ -255,9 +255,8 @@ WellFormed(cfg) == /\ cfg.den > 0 /\ cfg.k \in -9..9 /\ cfg.ea \in -12..12
                    /\ Len(cfg.srcs) >= 1 /\ \A s \in 1..Len(cfg.srcs) : SrcOK(cfg.srcs[s])
                    /\ Len(cfg.obs) >= 1
                    /\ (cfg.sens.on => \A i \in 1..Len(cfg.sens.path) : M3(cfg.sens.path[i].r) \in Rots)
-                   \* magpylib pads a shorter path with its last pose; lengths other than 1 and the maximum are avoided
-                   /\ \A s \in 1..Len(cfg.srcs) : Len(cfg.srcs[s].path) \in {1, PathLen(cfg)}
-                   /\ (cfg.sens.on => Len(cfg.sens.path) \in {1, PathLen(cfg)})
+                   \* paths may have different lengths: "paths shorter than index m are considered as static beyond their end"
+                   \* (PoseAt: an object stays at its LAST pose, position and orientation)
 
 \* every observer is strictly off every surface, cut plane, sheet plane, wire and point source, at every path index
 ObsOK(cfg, o) == \A s \in 1..Len(cfg.srcs) : \A i \in 1..PathLen(cfg) : Status(cfg.srcs[s], Local(cfg, cfg.srcs[s], o, i)) # "on"
@@ -385,6 +384,20 @@ Merged(a, b) ==
       sh == Sgn(off2[j]) * (b.geo[j] \div 2)
   IN Part(a, "Cuboid", [a.geo EXCEPT ![j] = a.geo[j] + b.geo[j]], Axis3(j, sh))
 
+\* Freeze(m): the STATIC configuration in which every object (sources, sensor) is placed at its pose number min(m, own length)
+FreezeF(cfg, m) ==
+  [cfg EXCEPT !.srcs = [s \in 1..Len(cfg.srcs) |-> [cfg.srcs[s] EXCEPT !.path = <<PoseAt(@, m)>>]],
+              !.sens = IF cfg.sens.on THEN [cfg.sens EXCEPT !.path = <<PoseAt(@, m)>>] ELSE cfg.sens]
+\* The small-angle image of a configuration (fine concretizations): every path is contracted towards its first pose by a factor
+\* eps <= 1e-5, all SOURCE orientations towards the first orientation of the first source (steps of a path and sources of a group
+\* then differ by 1e-3 .. 1e-5 degrees).  In the limit every source stands at its first position with the orientation of the first
+\* source and the sensor at its first pose: observers must be strictly off all surfaces of THAT configuration (margin >= 1 unit,
+\* the image moves by less than 1e-4 units)
+FineView(cfg) ==
+  [cfg EXCEPT !.srcs = [s \in 1..Len(cfg.srcs) |-> [cfg.srcs[s] EXCEPT !.path = <<Pose(V3(@[1].p), M3(cfg.srcs[1].path[1].r))>>]],
+              !.sens = IF cfg.sens.on THEN [cfg.sens EXCEPT !.path = <<@[1]>>] ELSE cfg.sens]
+FinePremise(cfg) == ObsOff(FineView(cfg))
+
 \* act records: [name |-> "RigidMove", g, t] [name |-> "Rescale", k] [name |-> "ScaleExc", a, m]
 \*              [name |-> "Split", i, axis, cut] [name |-> "SplitSeg", i, kind, cut] [name |-> "Convert", i, rep] [name |-> "Merge", i]
 \*              [name |-> "Convert", i, rep |-> "MeshLate", ops] [name |-> "Op", i, op] (something is done to the live mesh object)
@@ -401,6 +414,7 @@ EnabledAct(cfg, act) ==
                           /\ Len(cfg.srcs[act.i].ops) < 4
     [] act.name = "Merge" -> act.i \in 1..(Len(cfg.srcs) - 1) /\ MergeOK(cfg.srcs[act.i], cfg.srcs[act.i + 1])
     [] act.name = "Reconcretize" -> TRUE
+    [] act.name = "Freeze" -> PathLen(cfg) > 1 /\ act.m \in 1..PathLen(cfg)
     [] OTHER -> FALSE
 ApplyF(cfg, act) ==
   CASE act.name = "RigidMove" -> RigidMoveF(cfg, M3(act.g), V3(act.t))
@@ -412,6 +426,7 @@ ApplyF(cfg, act) ==
     [] act.name = "Op" -> [cfg EXCEPT !.srcs[act.i].ops = Append(@, act.op)]
     [] act.name = "Merge" -> [cfg EXCEPT !.srcs = Splice(@, act.i, 2, <<Merged(@[act.i], @[act.i + 1])>>)]
     [] act.name = "Reconcretize" -> cfg
+    [] act.name = "Freeze" -> FreezeF(cfg, act.m)
 
 \* ================================================================== exact premises (declarative)
 SameFrame(pre, post) == post.den = pre.den /\ post.k = pre.k /\ post.ea = pre.ea
@@ -442,6 +457,20 @@ PremiseMove(pre, act, post) ==
   /\ LocalInvariant(pre, post)
   /\ \A s \in 1..Len(pre.srcs) : \A i \in 1..PathLen(pre) :
         RelRot(post, post.srcs[s], i) = (IF pre.sens.on THEN RelRot(pre, pre.srcs[s], i) ELSE MulMM(g, RelRot(pre, pre.srcs[s], i)))
+
+\* --- C03, second sentence: "position and orientation of a source are honoured exactly as local frame placed in the global
+\* frame".  post is the static configuration of pre at path index m: every object at its own pose number min(m, own length)
+PremiseFreeze(pre, act, post) ==
+  LET m == act.m IN
+  /\ PathLen(pre) > 1 /\ m \in 1..PathLen(pre) /\ PathLen(post) = 1
+  /\ SameFrame(pre, post) /\ post.obs = pre.obs /\ Len(post.srcs) = Len(pre.srcs)
+  /\ \A s \in 1..Len(pre.srcs) : /\ post.srcs[s] = [pre.srcs[s] EXCEPT !.path = post.srcs[s].path]
+                                 /\ post.srcs[s].path = <<PoseAt(pre.srcs[s].path, m)>>
+  /\ post.sens.on = pre.sens.on
+  /\ (IF pre.sens.on THEN post.sens.path = <<PoseAt(pre.sens.path, m)>> ELSE post.sens = pre.sens)
+  \* what the physics needs: the same relative placement and reading frame as at index m of the paths
+  /\ \A s \in 1..Len(pre.srcs) : /\ RelRot(post, post.srcs[s], 1) = RelRot(pre, pre.srcs[s], m)
+                                 /\ \A j \in 1..Len(pre.obs) : Local(post, post.srcs[s], post.obs[j], 1) = Local(pre, pre.srcs[s], pre.obs[j], m)
 
 \* --- C12
 KindHomogeneous(cfg) == \A s, u \in 1..Len(cfg.srcs) : LenExp(cfg.srcs[s]) = LenExp(cfg.srcs[u])
@@ -551,6 +580,7 @@ Premise(pre, act, post) ==
        [] act.name = "Merge" -> PremiseMerge(pre, act, post)
        [] act.name = "Op" -> PremiseOp(pre, act, post)
        [] act.name = "Reconcretize" -> post = pre
+       [] act.name = "Freeze" -> PremiseFreeze(pre, act, post)
        [] OTHER -> FALSE
 
 \* which fields a step makes a claim about
@@ -590,6 +620,24 @@ MoveConclusion(ob, g, tol) == SameShape(ob) /\ ob.xs = 0
 ScaleConclusion(ob, m, tol) == SameShape(ob)
                                /\ \A s \in 1..Len(ob.b) : \A i \in 1..Len(ob.b[s]) : VecClose8(V3(ob.a[s][i]), Scale3(m, V3(ob.b[s][i])), tol)
 ExpOK(ob, xs) == (AllZeroOb(ob.b) /\ AllZeroOb(ob.a)) \/ ob.xs = xs
+\* the observation at path index m of the paths = the observation of the static placement (path index 1 of `after`)
+PlacementConclusion(ob, m, tol) == Len(ob.a) = Len(ob.b) /\ ob.xs = 0
+                                   /\ \A s \in 1..Len(ob.b) : VecClose8(V3(ob.a[s][1]), V3(ob.b[s][m]), tol)
+\* the same conclusions on two-limb values (fine concretizations: 1e-12 of the gross scale)
+Vec12Close(a, b, tol) == \A c \in 1..3 : Close12(a[c], b[c], tol)
+Mul12(g, v) == [c \in 1..3 |-> <<Dot3(g[c], <<v[1][1], v[2][1], v[3][1]>>), Dot3(g[c], <<v[1][2], v[2][2], v[3][2]>>)>>]     \* signed permutation, limb-wise
+MoveConclusion12(ob, g, tol) == SameShape(ob) /\ ob.xs = 0
+                                /\ \A s \in 1..Len(ob.b) : \A i \in 1..Len(ob.b[s]) : Vec12Close(ob.a[s][i], Mul12(g, ob.b[s][i]), tol)
+PlacementConclusion12(ob, m, tol) == Len(ob.a) = Len(ob.b) /\ ob.xs = 0
+                                     /\ \A s \in 1..Len(ob.b) : Vec12Close(ob.a[s][1], ob.b[s][m], tol)
+\* the CHANGE of the field along a fine path (difference to step 1, limb-wise): after-change = g . before-change.  The change is of
+\* the order eps * gross scale; a path frozen at its first orientation has change 0 and is rejected, rounding noise (1e-13) is not
+Delta12(x, s, i) == [c \in 1..3 |-> <<x[s][i][c][1] - x[s][1][c][1], x[s][i][c][2] - x[s][1][c][2]>>]
+ChangeConclusion12(ob, g, tol) == SameShape(ob)
+                                  /\ \A s \in 1..Len(ob.b) : \A i \in 2..Len(ob.b[s]) : Vec12Close(Delta12(ob.a, s, i), Mul12(g, Delta12(ob.b, s, i)), tol)
+\* fine.e = e: increments scaled by 10^-e (e = 5, 6, 7: steps of 1e-3 .. 1e-5 degrees); tolerance of the change: 1e-3 of its own scale
+\* 10^-e, not below 1e-9 of the gross scale (measured noise of re-derived inputs <= 6e-11)
+TolChange12(e) == IF e <= 5 THEN 10000 ELSE 1000
 \* sum over the sources, two-limb values: Sum12(x, i) = <<sum of high limbs, sum of low limbs>> per component
 Sum12(x, i, c) == <<SumSeq([s \in 1..Len(x) |-> x[s][i][c][1]]), SumSeq([s \in 1..Len(x) |-> x[s][i][c][2]])>>
 SumConclusion(ob, npath, tol) == ob.xs = 0 /\ \A i \in 1..npath : \A c \in 1..3 : Close12(Sum12(ob.a, i, c), Sum12(ob.b, i, c), tol)
